@@ -514,8 +514,24 @@ def self_param_kind(p):
     return "other:" + q
 
 
+def inv_key(cls, c, qt, kind):
+    """stable, signature-carrying name of a class member for the inventory"""
+    nm = c.get("name") or ""
+    if kind == "FieldDecl":
+        return "%s::%s : %s%s" % (cls, nm, "mutable " if c.get("mutable") else "", qt)
+    if kind == "FunctionTemplateDecl":
+        tps = [x.get("name") for x in inner(c) if x.get("kind") == "TemplateTypeParmDecl"]
+        return "%s::template<%s> %s(%s)" % (cls, ",".join(tps), nm.split("<")[0], param_of(qt))
+    base = nm.split("<")[0] if kind in ("CXXConstructorDecl", "CXXDestructorDecl") else nm
+    tail = qt[qt.rfind(")") + 1:].strip()
+    suffix = " = delete" if c.get("explicitlyDeleted") else (" = default" if c.get("explicitlyDefaulted") == "default" else "")
+    ret = "" if kind in ("CXXConstructorDecl", "CXXDestructorDecl", "CXXConversionDecl") else qt[:qt.find("(")].strip() + " "
+    return "%s::%s%s%s(%s)%s%s" % (cls, "virtual " if c.get("virtual") else "", ret, base, param_of(qt), (" " + tail) if tail else "", suffix)
+
+
 def members(ipdocs, rcdocs):
     names = []       # human-readable, for the report
+    inv = []         # inventory keys: Class::name(params) quals [= delete|default] / Class::field : type
     ip, rc = [], []
     pat = None
     for d in ipdocs:
@@ -557,6 +573,7 @@ def members(ipdocs, rcdocs):
             other += 1
         ip.append(tag)
         names.append("IntrusivePtr::%s %s -> %s" % (c.get("name"), qt, tag))
+        inv.append(inv_key("IntrusivePtr<T>", c, qt, k))
     ndel = 0
     rec = None
     for d in rcdocs:
@@ -571,6 +588,7 @@ def members(ipdocs, rcdocs):
         if c.get("explicitlyDeleted") and (k == "CXXConstructorDecl" or (k == "CXXMethodDecl" and c.get("name") == "operator=")):
             ndel += 1
             names.append("RefCountedObject::%s %s -> deleted" % (c.get("name"), qt))
+            inv.append(inv_key("RefCountedObject", c, qt, k))
             continue
         if k == "FieldDecl":
             tag = "DFieldCounter" if c.get("name") == "refCounter" else None
@@ -585,13 +603,14 @@ def members(ipdocs, rcdocs):
             other += 1
         rc.append(tag)
         names.append("RefCountedObject::%s %s -> %s" % (c.get("name"), qt, tag))
+        inv.append(inv_key("RefCountedObject", c, qt, k))
     if ndel:
         rc.append("DRcDeletedCopy %d" % ndel)
 
     def order(lst, ref):
         key = lambda t: (ref.index(t.split()[0]) if t.split()[0] in ref else len(ref), t)
         return sorted(lst, key=key)
-    return order(ip, IP_ORDER) + order(rc, RC_ORDER), names
+    return order(ip, IP_ORDER) + order(rc, RC_ORDER), names, inv
 
 
 MIX_TU = r"""
@@ -622,6 +641,8 @@ void FAssignR(B &a, B &b) { a = static_cast<B &&>(b); }
 void FAssignRaw(B &a, c08inst::Base *p) { a = p; }
 void FAssignConvL(B &a, D &d) { a = d; }
 void FAssignConvR(B &a, D &d) { a = static_cast<D &&>(d); }
+void FRawNull() { B x(nullptr); }
+void FAssignNull(B &a) { a = nullptr; }
 }
 """
 CTOR_METH = {"none": "MDefCtor", "copy": "MCopyCtor", "move": "MMoveCtor", "raw": "MRawCtor", "convcopy": "MConvCtor"}
@@ -674,7 +695,7 @@ def free_decls(repo, work):
     """every free function / function template / alias declared in namespace rkcommon::memory by
     IntrusivePtr.h and RefCount.h (out-of-line member definitions are not free functions)"""
     docs = dump(repo, work, "rkcommon::memory")
-    out, names = [], []
+    out, names, finv = [], [], []
     other = 0
     kinds = {"operator<": "KLt", "operator==": "KEq", "operator!=": "KNe", "operator<=": "KLe", "operator>": "KGt", "operator>=": "KGe"}
     seen_ns = False
@@ -702,20 +723,28 @@ def free_decls(repo, work):
                     elif ps == "constIntrusivePtr<T>&,constIntrusivePtr<T>&" and len(tps) == 1:
                         tag = "FCmpOp %s 1 false" % kinds[c["name"]]
                 names.append("%s<%d> %s" % (c.get("name"), len(tps), qt))
+                finv.append("template<%s> %s %s(%s)" % (",".join(x.get("name") or "?" for x in tps), qt[:qt.find("(")].strip(), c.get("name"), param_of(qt)))
             elif k == "TypeAliasTemplateDecl" and c.get("name") == "Ref":
                 tag = "FAliasRef"
+                al = [x for x in inner(c) if x.get("kind") == "TypeAliasDecl"]
+                finv.append("template<T> using Ref = %s" % (al[0].get("type", {}).get("qualType", "?") if al else "?"))
             elif k == "TypeAliasDecl" and c.get("name") == "RefCount":
                 tag = "FAliasRefCount"
+                finv.append("using RefCount = %s" % c.get("type", {}).get("qualType", "?"))
+            elif k == "FunctionDecl":
+                finv.append("%s %s(%s)" % (c.get("type", {}).get("qualType", "").split("(")[0].strip(), c.get("name"), param_of(c.get("type", {}).get("qualType", ""))))
             if tag is None:
                 tag = "FOtherFree %d" % other
                 other += 1
                 names.append("unclassified %s %s" % (k, c.get("name")))
+                if k not in ("FunctionTemplateDecl", "FunctionDecl"):
+                    finv.append("%s %s" % (k, c.get("name")))
             out.append(tag)
     if not seen_ns:
         out.append("FOtherFree 0")
     order = ["FCmpOp KLt", "FCmpOp KEq", "FCmpOp KNe", "FAliasRef", "FAliasRefCount"]
     key = lambda t: (next((i for i, o in enumerate(order) if t.startswith(o)), len(order)), t)
-    return sorted(out, key=key), names
+    return sorted(out, key=key), names, finv
 
 
 def extract(repo, work):
@@ -753,9 +782,9 @@ def extract(repo, work):
         notes.append("comparison facts: %r" % (ex,))
     info["cmp"] = cmpf
     try:
-        mem, names = members(docs, rdocs)
+        mem, names, minv = members(docs, rdocs)
     except Exception as ex:
-        mem, names = ["DOther 0"], []
+        mem, names, minv = ["DOther 0"], [], []
         notes.append("member enumeration: %r" % (ex,))
     info["members"] = mem
     info["member_decls"] = names
@@ -765,12 +794,13 @@ def extract(repo, work):
         sel, detail = {}, {}
         notes.append("overload selection: %r" % (ex,))
     try:
-        free, fnames = free_decls(repo, work)
+        free, fnames, finv = free_decls(repo, work)
     except Exception as ex:
-        free, fnames = ["FOtherFree 0"], []
+        free, fnames, finv = ["FOtherFree 0"], [], []
         notes.append("free declarations: %r" % (ex,))
     info["free"] = free
     info["free_decls"] = fnames
+    info["inventory"] = list(minv) + list(finv)
     info["sel"] = {k: list(v) for k, v in sel.items()}
     info["sel_detail"] = detail
     return table, rc, info, notes
@@ -792,7 +822,7 @@ def coq_text(table, rc, cmpf=None, mem=None, sel=None, free=None):
     mem = mem if mem is not None else ["DOther 0"]
     sel = sel or {}
     forms = ["FDef", "FCopyL", "FMoveR", "FConvL", "FConvR", "FConvTemp", "FRawC", "FDtorF",
-             "FAssignL", "FAssignR", "FAssignRaw", "FAssignConvL", "FAssignConvR"]
+             "FAssignL", "FAssignR", "FAssignRaw", "FAssignConvL", "FAssignConvR", "FRawNull", "FAssignNull"]
     lines += ["Definition gen_members : list mdecl :=", "  [%s]." % "; ".join(mem), "",
               "Definition gen_sel (f : cform) : option meth * via :=", "  match f with"]
     for f in forms:
